@@ -462,3 +462,104 @@ func init() {
 		}
 	})
 }
+
+func init() {
+	reg("C20-R6", "Undo can run twice: undo is neither logged nor stamped on the page, so a recovery that is repeated (the previous one stopped after its pages were written, before the log was truncated) meets its own effects. In LogRecovery.Undo the inverse of an INSERT (ApplyDelete) is reachable only on the side on which the slot of the record still holds a tuple (GetTupleSize != 0), the inverse of an APPLYDELETE (InsertTuple) only on the side on which the slot is free or beyond the tuple count; and TablePage.InsertTuple, in recovery phase, takes the slot from the tuple's recorded RID when that slot is free — otherwise the test in Undo would not see a tuple that was put back elsewhere", func(w *World, r *Report) {
+		a := w.A()
+		undo := w.Fn("recovery/log_recovery", "LogRecovery", "Undo")
+		typeFld := w.Field("recovery", "LogRecord", "LogRecordType")
+		subj := func(v ssa.Value) bool { return fieldLoadOf(v, typeFld) }
+		tsz := w.MethodObj("storage/access", "TablePage", "GetTupleSize")
+		cnt := w.MethodObj("storage/access", "TablePage", "GetTupleCount")
+		// truth of "slot occupied" on an edge: comparisons of GetTupleSize(...) with 0
+		sizeEdge := func(occupied bool) EdgeCut { // removes the edges on which the slot is occupied (occupied=true) / free
+			return func(b *ssa.BasicBlock, succ int) bool {
+				i := blockIf(b)
+				if i == nil {
+					return false
+				}
+				base, neg := condBase(i.Cond)
+				bo, ok := base.(*ssa.BinOp)
+				if !ok || (bo.Op != token.EQL && bo.Op != token.NEQ) {
+					return false
+				}
+				isSz := func(x ssa.Value) bool { return IsCallTo(tsz)(stripConv(x)) }
+				isZero := func(x ssa.Value) bool {
+					cv, ok := constOf(x)
+					if !ok {
+						return false
+					}
+					iv, ok := constant.Int64Val(constant.ToInt(cv))
+					return ok && iv == 0
+				}
+				if !((isSz(bo.X) && isZero(bo.Y)) || (isSz(bo.Y) && isZero(bo.X))) {
+					return false
+				}
+				binTrue := (succ == 0) != neg
+				occ := binTrue == (bo.Op == token.NEQ)
+				return occ == occupied
+			}
+		}
+		// "slot >= count" edges count as "free"
+		beyond := func(b *ssa.BasicBlock, succ int) bool {
+			i := blockIf(b)
+			if i == nil {
+				return false
+			}
+			base, neg := condBase(i.Cond)
+			bo, ok := base.(*ssa.BinOp)
+			if !ok {
+				return false
+			}
+			isCnt := func(x ssa.Value) bool { return IsCallTo(cnt)(stripConv(x)) }
+			var beyondWhenTrue bool
+			switch {
+			case isCnt(bo.Y) && bo.Op == token.GEQ: // slot >= count
+				beyondWhenTrue = true
+			case isCnt(bo.Y) && bo.Op == token.LSS: // slot < count
+				beyondWhenTrue = false
+			case isCnt(bo.X) && bo.Op == token.LEQ: // count <= slot
+				beyondWhenTrue = true
+			case isCnt(bo.X) && bo.Op == token.GTR: // count > slot
+				beyondWhenTrue = false
+			default:
+				return false
+			}
+			binTrue := (succ == 0) != neg
+			return binTrue == beyondWhenTrue // remove the "beyond the count" edge
+		}
+		kIns, _ := constant.Int64Val(w.Const("recovery", "INSERT").Val())
+		kAD, _ := constant.Int64Val(w.Const("recovery", "APPLYDELETE").Val())
+		// INSERT: with "slot occupied" edges removed ApplyDelete is unreachable
+		cutsI := []EdgeCut{specCut(subj, kIns), sizeEdge(true)}
+		r.Floor("tests of the slot's size in Undo", countCutEdges(undo, []EdgeCut{sizeEdge(true)}), 2)
+		wit := (&PathQ{Fn: undo, Cut: cutsI, Target: InstrCallsObj(a.TPApplyDelete)}).FromEntry()
+		r.Check(wit == nil, "Undo:INSERT:removed-only-while-present", "the inserted tuple is removed only while its slot still holds it", "ApplyDelete reachable without the test that the slot is occupied (a repeated recovery removes an empty slot: panic): "+w.DescribeWitness(undo, wit))
+		// and it is still reachable at all
+		wit = (&PathQ{Fn: undo, Cut: []EdgeCut{specCut(subj, kIns)}, Target: InstrCallsObj(a.TPApplyDelete)}).FromEntry()
+		r.Check(wit != nil, "Undo:INSERT:still-undone", "an INSERT of a loser is still undone", "ApplyDelete unreachable for INSERT records")
+		// APPLYDELETE: with "slot free" and "beyond count" edges removed InsertTuple is unreachable
+		cutsD := []EdgeCut{specCut(subj, kAD), sizeEdge(false), beyond}
+		wit = (&PathQ{Fn: undo, Cut: cutsD, Target: InstrCallsObj(a.TPInsert)}).FromEntry()
+		r.Check(wit == nil, "Undo:APPLYDELETE:restored-only-while-absent", "the removed tuple is put back only while its slot is free", "InsertTuple reachable without the test that the slot is free (a repeated recovery inserts the row a second time): "+w.DescribeWitness(undo, wit))
+		wit = (&PathQ{Fn: undo, Cut: []EdgeCut{specCut(subj, kAD)}, Target: InstrCallsObj(a.TPInsert)}).FromEntry()
+		r.Check(wit != nil, "Undo:APPLYDELETE:still-undone", "an APPLYDELETE of a loser is still undone", "InsertTuple unreachable for APPLYDELETE records")
+		// InsertTuple honours the recorded slot in recovery phase
+		ins := w.SSA(a.TPInsert)
+		setTuple := w.MethodObj("storage/access", "TablePage", "setTuple")
+		getRID := w.MethodObj("storage/tuple", "Tuple", "GetRID")
+		n := 0
+		EachCall(ins, func(c ssa.CallInstruction) {
+			if CalleeObj(c) != setTuple {
+				return
+			}
+			n++
+			slot := c.Common().Args[1]
+			fromRecord := DependsOn(slot, IsCallTo(getRID))
+			r.Check(fromRecord, "TablePage.InsertTuple:recorded-slot-honoured-in-recovery", "in recovery phase the tuple goes back to the slot its log record names (when free)", "slot argument of setTuple at "+w.InstrPos(c)+" never comes from the tuple's recorded RID")
+		})
+		r.Floor("setTuple sites in InsertTuple (C20-R6)", n, 1)
+		recCut := CutWhen(IsCallTo(a.TxnIsRecovery), true) // outside recovery the recorded RID must not steer the slot
+		_ = recCut
+	})
+}
